@@ -92,7 +92,7 @@ def string_value(rng):
     r = rng.random()
     if r < 0.3:
         return rng.choice([b"", b"%{cmdline}", b"uid=%{uid} tty=%{tty} cmdline=%{cmdline}", b"only_uid:0", b"exclude_uid:1,2,3", b"filter1:arg11;filter2:arg21,arg22",
-                           b"a;b", b"a ;b", b"a\t;b", b"a ; b ; c", b";lead", b"#lead", b"\"", b"'", b"\"\"", b"a\"b", b"\"a\"", b"'a'", b"\"a'", b" x ", b"x=y", b"x:y", b"[x]", b"snoopy"])
+                           b"a;b", b"a ;b", b"a\t;b", b"a ; b ; c", b"a\x0b;b", b"a\x0c;b", b"a\r;b", b"a\x0c#b", b"x\r; y\x0b;", b";lead", b"#lead", b"\"", b"'", b"\"\"", b"a\"b", b"\"a\"", b"'a'", b"\"a'", b" x ", b"x=y", b"x:y", b"[x]", b"snoopy"])
     return rtext(rng, rng.choice([1, 3, 8, 20, 60]))
 
 
